@@ -64,7 +64,7 @@ func check(c *Ctx, h *animenc.History, stream string) {
 func main() {
 	Main("c18", func(c *Ctx) {
 		c.D.Rule = "encoder sessions in the four Lossless x AllowMixed modes, Quality swept over 0..100, canvas 1x1..16x16, 1..8 AddFrame calls with binary / graded / boundary alpha (and opaque controls), all change kinds and Kmin/Kmax settings of C08; plus qualityToMaxDiff for all 101 qualities and pixelsAreSimilar unit cases; non-trivial = >= 2 inputs, distinct = distinct per-written-frame (full, 1x1, blend, dispose, codec) signature per mode"
-		n, ns := 500, 2000
+		n, ns := 2000, 4000
 		if c.Thorough() {
 			n, ns = 8000, 40000
 		}
